@@ -16,6 +16,7 @@ POLY = 'urn:vk:poly'
 FX = 'urn:vk:fx'
 UN = 'urn:vk:un'
 MQ = 'urn:vk:mq'
+FLAT = 'urn:vk:flat'
 
 
 class N:
@@ -310,7 +311,7 @@ POLY_XSD = f'''<?xml version="1.0" encoding="UTF-8"?>
 '''
 
 FAMILIES = {'shop': SHOP_XSD, 'tree': TREE_XSD, 'ctx': CTX_XSD}
-FAMILY_NS = {'shop': SHOP, 'tree': TREE, 'ctx': CTX, 'poly': POLY, 'fx': FX, 'un': UN, 'plain': '', 'mixq': MQ}
+FAMILY_NS = {'shop': SHOP, 'tree': TREE, 'ctx': CTX, 'poly': POLY, 'fx': FX, 'un': UN, 'plain': '', 'mixq': MQ, 'flat': FLAT}
 # families with special purposes (not part of the shared rotation): xsi:type-dependent identity constraints
 FX_XSD = f'''<?xml version="1.0" encoding="UTF-8"?>
 <xs:schema xmlns:xs="{XS}" targetNamespace="{FX}" xmlns:f="{FX}" elementFormDefault="qualified">
@@ -426,7 +427,28 @@ MQ_XSD = f'''<?xml version="1.0" encoding="UTF-8"?>
 </xs:schema>
 '''
 
-EXTRA_FAMILIES = {'poly': POLY_XSD, 'fx': FX_XSD, 'un': UN_XSD, 'plain': PLAIN_XSD, 'mixq': MQ_XSD}
+# records that are leaf elements (attributes only) with a key and a keyref on the root
+FLAT_XSD = f'''<?xml version="1.0" encoding="UTF-8"?>
+<xs:schema xmlns:xs="{XS}" targetNamespace="{FLAT}" xmlns:r="{FLAT}" elementFormDefault="qualified">
+  <xs:element name="flat">
+    <xs:complexType>
+      <xs:sequence>
+        <xs:element name="rec" minOccurs="0" maxOccurs="unbounded">
+          <xs:complexType>
+            <xs:attribute name="id" type="xs:int" use="required"/>
+            <xs:attribute name="next" type="xs:int"/>
+            <xs:attribute name="tag" type="xs:NCName"/>
+          </xs:complexType>
+        </xs:element>
+      </xs:sequence>
+    </xs:complexType>
+    <xs:key name="recId"><xs:selector xpath="r:rec"/><xs:field xpath="@id"/></xs:key>
+    <xs:keyref name="recNext" refer="r:recId"><xs:selector xpath="r:rec"/><xs:field xpath="@next"/></xs:keyref>
+  </xs:element>
+</xs:schema>
+'''
+
+EXTRA_FAMILIES = {'poly': POLY_XSD, 'fx': FX_XSD, 'un': UN_XSD, 'plain': PLAIN_XSD, 'mixq': MQ_XSD, 'flat': FLAT_XSD}
 
 
 def family_xsd(family, version):
@@ -739,7 +761,29 @@ def gen_mixq(rng, fault=None):
     return root
 
 
-GENERATORS = {'mixq': gen_mixq, 'plain': gen_plain, 'un': gen_un, 'shop': gen_shop, 'tree': gen_tree, 'ctx': gen_ctx, 'poly': gen_poly, 'fx': gen_fx}
+def gen_flat(rng, fault=None, n=None):
+    """fault: None | 'dup_key_late' | 'dangling_keyref_late'."""
+    n = n if n is not None else rng.randint(1, 8)
+    root = N(FLAT, 'flat', meta={'elem_only': True})
+    for i in range(n):
+        attrs = [('', 'id', str(i + 1))]
+        if rng.random() < 0.6:
+            attrs.append(('', 'next', str(rng.randint(1, n))))
+        if rng.random() < 0.5:
+            attrs.append(('', 'tag', rng.choice(('alpha', 'beta', 'g_1'))))
+        root.children.append(N(FLAT, 'rec', attrs, meta={'required_attrs': ['id'], 'bad_attr': {'id': 'one', 'tag': '1x'}}))
+    if fault == 'dup_key_late' and n >= 2:
+        last = root.children[-1]
+        last.attrs = [(a, b, str(n - 1)) if b == 'id' else (a, b, c) for a, b, c in last.attrs]
+        for r in root.children:
+            r.attrs = [(a, b, '1') if b == 'next' else (a, b, c) for a, b, c in r.attrs]
+    if fault == 'dangling_keyref_late' and n >= 1:
+        last = root.children[-1]
+        last.attrs = [x for x in last.attrs if x[1] != 'next'] + [('', 'next', '99999')]
+    return root
+
+
+GENERATORS = {'flat': gen_flat, 'mixq': gen_mixq, 'plain': gen_plain, 'un': gen_un, 'shop': gen_shop, 'tree': gen_tree, 'ctx': gen_ctx, 'poly': gen_poly, 'fx': gen_fx}
 
 
 # ---------------------------------------------------------------------------------------------
@@ -813,13 +857,25 @@ def apply_fault(root, path, kind, rng):
     raise ValueError(kind)
 
 
-def identity_fault(root, family, kind, rng):
-    """Document-wide identity faults for the shop family. Returns (damaged, detail) or None."""
+def identity_fault(root, family, kind, rng, late=False):
+    """Document-wide identity faults for the shop family. Returns (damaged, detail) or None. late: the damage is put at
+    the end of the document (in a long document: in a part that a streaming reader meets late)."""
     r = copy.deepcopy(root)
     if family != 'shop':
         return None
     prods = [c for c in r.children if c.name == 'product']
     orders = [c for c in r.children if c.name == 'order']
+    if late:
+        keep_sku = prods[0].attrs[0][2] if prods else None
+        prods = prods[::-1]
+        orders = orders[::-1]
+        if kind == 'dup_key' and len(prods) >= 2:
+            prods[0].attrs = [(a[0], a[1], prods[1].attrs[0][2]) if a[1] == 'sku' else a for a in prods[0].attrs]
+            for o in orders:
+                for ln in o.children:
+                    if ln.name == 'line':
+                        ln.attrs = [('', 'ref', keep_sku)]
+            return r, 'duplicate sku key (last two products)'
     if kind == 'dup_key' and len(prods) >= 2:
         prods[1].attrs = [(a[0], a[1], prods[0].attrs[0][2]) if a[1] == 'sku' else a for a in prods[1].attrs]
         # keep keyrefs resolvable
@@ -868,7 +924,7 @@ def default_prefixes(family, rng=None):
     if family == 'plain':
         return {}
     ns = FAMILY_NS[family]
-    base = {'shop': 's', 'tree': 't', 'ctx': 'c', 'poly': 'p', 'fx': 'f', 'un': 'u', 'mixq': 'q'}[family]
+    base = {'shop': 's', 'tree': 't', 'ctx': 'c', 'poly': 'p', 'fx': 'f', 'un': 'u', 'mixq': 'q', 'flat': 'r'}[family]
     if rng is None:
         return {ns: base, EXT: 'e'}
     if family == 'mixq':
